@@ -169,7 +169,7 @@ N("C06-neutral-comment", "C06", ("targets/stablehlo.py", "        self.defined_r
 M("C08-typemax-complex", "C08", "R8.1", ("typesystem.py", "            elif kind == \"complex\" and t.kind == \"float\":\n                # a complex type must hold the float type as its component type\n                bits_lst.append(2 * t.bits)", "            elif kind == \"complex\" and t.kind == \"float\":\n                bits_lst.append(t.bits)"))
 M("C08-abs-complex-type", "C08", "R8.1", ("expr.py", '        elif self.kind in {"absolute", "real", "imag"}:\n            t = self.operands[0].get_type()\n            return t.complex_part if t.is_complex else t', '        elif self.kind in {"real", "imag"}:\n            t = self.operands[0].get_type()\n            return t.complex_part if t.is_complex else t\n        elif self.kind == "absolute":\n            return self.operands[0].get_type()'))
 M("C08-compare-not-bool", "C08", "R8.1", ("expr.py", '        elif self.kind in {"lt", "le", "gt", "ge", "eq", "ne", "logical_and", "logical_or", "logical_xor", "is_finite"}:\n            return Type.fromobject(self.context, "boolean")', '        elif self.kind in {"lt", "le", "gt", "ge", "logical_and", "logical_or", "logical_xor", "is_finite"}:\n            return Type.fromobject(self.context, "boolean")\n        elif self.kind in {"eq", "ne"}:\n            return self.operands[0].get_type()'))
-M("C08-builtin-max", "C08", "R8.1", ("targets/numpy.py", 'maximum="numpy.maximum({0}, {1})",', 'maximum="numpy.fmax({0}, {1})" if False else "({0}) if ({0}) > ({1}) else ({1})",'))
+M("C08-builtin-max", "C08", "R8.1", ("targets/numpy.py", 'maximum="numpy.maximum({0}, {1})",', 'maximum="max({0}, {1})",'))
 M("C08-complex-part-width", "C08", "R8.1", ("typesystem.py", "        bits = self.bits // 2 if self.bits is not None else None\n        return type(self)(self.context, \"float\", bits)", "        bits = self.bits if self.bits is not None else None\n        return type(self)(self.context, \"float\", bits)"))
 M("C08-assert-wrong-expr", "C08", "R8.3", ("targets/base.py", "stmt = self.check_dtype(expr.ref, self.get_type(expr))", "stmt = self.check_dtype(expr.ref, self.get_type(expr.operands[0]))"))
 M("C08-seed-finfo", "C08", "R8.4", ("targets/numpy.py", '        return f"{typ}({s})"\n\n    def make_argument', '        if s.startswith((f"{typ}(", f"numpy.finfo({typ}).")):\n            return s\n        return f"{typ}({s})"\n\n    def make_argument'))
